@@ -353,7 +353,9 @@ def evaluate(case):
             open(p, 'wb').write('\n'.join(lines).encode('latin-1'))
             return core.run('asl', corpus.flags(t) + ['-q', '-i', corpus.incdir(), t + '.asm'], variant=v, cwd=d, timeout=to, maxout=1 << 16)
         o = run('asan')
-        r = finish(run, o, ASL_OK, '%s line %d := %r' % (t, case['line'] + 1, case['new']), 'asl/operand', big_ok=any(b in case['new'] for b in BIG))
+        # (a source of megabytes describes megabytes of listing and diagnostics by itself)
+        big_src = os.path.getsize(os.path.join(corpus.tdir(), t, t + '.asm')) * 8 > FSIZE_CAP
+        r = finish(run, o, ASL_OK, '%s line %d := %r' % (t, case['line'] + 1, case['new']), 'asl/operand', big_ok=big_src or any(b in case['new'] for b in BIG))
         return r or core.R(True, 'rc%s' % o.rc, nontrivial=o.rc != 0, states=['%s/%d' % (t, o.rc)])
     if k == 'seq':
         if case['fam'] == 'pp':
